@@ -132,3 +132,20 @@ package bam
 //@   mode bv
 //@   props C11
 //@   decoder
+
+// Merger.reassignReference (C18): a record taken from source reader id is
+// re-linked to the merged header: its reference and its mate reference are
+// replaced by the references the merged header holds for them (refLinks maps
+// a source reference id to the merged header's reference).
+//@ func Merger.reassignReference
+//@   mode int
+//@   props C18
+//@   terminates
+//@   requires m != nil && rec != nil
+//@   requires m.refLinks != nil ==> (0 <= id && id < len(m.refLinks))
+//@   requires (m.refLinks != nil && rec.Ref != nil) ==> (0 <= rec.Ref.id && int(rec.Ref.id) < len(m.refLinks[id]))
+//@   requires (m.refLinks != nil && rec.MateRef != nil) ==> (0 <= rec.MateRef.id && int(rec.MateRef.id) < len(m.refLinks[id]))
+//@   modifies rec.Ref, rec.MateRef
+//@   ensures[C18] @ref (m.refLinks != nil && old(rec.Ref) != nil) ==> rec.Ref == m.refLinks[id][int(old(rec.Ref.id))]
+//@   ensures[C18] @mate (m.refLinks != nil && old(rec.MateRef) != nil) ==> rec.MateRef == m.refLinks[id][int(old(rec.MateRef.id))]
+//@   ensures[C18] @single m.refLinks == nil ==> (rec.Ref == old(rec.Ref) && rec.MateRef == old(rec.MateRef))
